@@ -46,12 +46,30 @@ theorem expTail_clamp (rest : List UInt8) : (expTail rest).1 = clampI32 (trueExp
     simp only [if_true]
     unfold i32Min i32Max; omega
 
-theorem expSplit_clamp (b2 : List UInt8) : (expSplit b2).1 = clampI32 (trueExpSplit b2) := by
-  unfold expSplit trueExpSplit
+theorem trueExpSplit_none (b2 : List UInt8) (h1 : b2.head? ≠ some 101) (h2 : b2.head? ≠ some 69) :
+    trueExpSplit b2 = 0 := by
+  unfold trueExpSplit
   split
-  · exact expTail_clamp _
-  · exact expTail_clamp _
+  · simp at h1
+  · simp at h2
   · rfl
+
+theorem eq_cons_of_head {b2 : List UInt8} {m : UInt8} (h : b2.head? = some m) : ∃ rest, b2 = m :: rest := by
+  cases b2 with
+  | nil => simp at h
+  | cons c t =>
+    simp only [List.head?_cons, Option.some.injEq] at h
+    exact ⟨t, by rw [h]⟩
+
+theorem expSplit_clamp (b2 : List UInt8) : (expSplit b2).1 = clampI32 (trueExpSplit b2) := by
+  by_cases h1 : b2.head? = some 101
+  · obtain ⟨rest, rfl⟩ := eq_cons_of_head h1
+    exact expTail_clamp _
+  by_cases h2 : b2.head? = some 69
+  · obtain ⟨rest, rfl⟩ := eq_cons_of_head h2
+    exact expTail_clamp _
+  rw [expSplit_none b2 h1 h2, trueExpSplit_none b2 h1 h2]
+  rfl
 
 /-- the exponent handed to the library is the true exponent saturated to `i32` -/
 theorem expOf_clamp (b0 : List UInt8) : expOf b0 = clampI32 (trueExpOf b0) := expSplit_clamp _
@@ -67,14 +85,6 @@ theorem trueExpSplit_marker (m : UInt8) (hm : m = 101 ∨ m = 69) (t : List UInt
   rw [this]
   unfold trueExpTail expDigitsTail
   rw [parseSign_fst]
-
-theorem trueExpSplit_none (b2 : List UInt8) (h1 : b2.head? ≠ some 101) (h2 : b2.head? ≠ some 69) :
-    trueExpSplit b2 = 0 := by
-  unfold trueExpSplit
-  split
-  · simp at h1
-  · simp at h2
-  · rfl
 
 -- ------------------------------------------------------------------ zero value
 theorem ofDec_zero_num (e : Int) : (ofDec 0 e).num = 0 := by
@@ -102,6 +112,7 @@ theorem n309_f32 : (2 ^ 25 - 1) * 2 ^ 103 ≤ 10 ^ 309 := by decide +kernel
 theorem n324_f64 : 2 ^ 1075 ≤ 10 ^ 324 := by decide +kernel
 theorem n324_f32 : 2 ^ 150 ≤ 10 ^ 324 := by decide +kernel
 
+set_option exponentiation.threshold 512 in
 /-- `N · 10^x` with `N ≥ 1`, `x ≥ 309` rounds to `+∞` (f32 and f64) -/
 theorem rne_dec_inf {f : Fmt} (hf : f = Fmt.f32 ∨ f = Fmt.f64) {N : Nat} (hN : 1 ≤ N) {x : Int}
     (hx : 309 ≤ x) : rne f (ofDec N x) = f.infBits := by
@@ -136,6 +147,7 @@ theorem rne_dec_zero {f : Fmt} (hf : f = Fmt.f32 ∨ f = Fmt.f64) {N : Nat} {x :
   · rw [RneSpec.rne_zero_iff _ (by decide) (ofDec_den_pos _ _), zeroThr_f64]
     exact key _ n324_f64
 
+set_option exponentiation.threshold 512 in
 /-- **Clamping the exponent to `i32` is harmless** for digit strings with
     `int.length ≤ 2^31 − 324` and `frac.length ≤ 2^31 − 1 − 309`: with the true exponent `te` outside
     `i32`, both the true value and the value with the clamped exponent round to `+0` (zero digits, or
@@ -176,37 +188,54 @@ theorem clamp_harmless {f : Fmt} (hf : f = Fmt.f32 ∨ f = Fmt.f64) (int frac : 
 
 -- ------------------------------------------------------------------ … and harmful without the margin
 theorem digitsValue_zeros_one (k : Nat) (e : Int) :
-    digitsValue [] (List.replicate k 48 ++ [49]) e = ofDec 1 (e - ((k + 1 : Nat) : Int)) := by
+    digitsValue [] (List.replicate k (48 : UInt8) ++ [49]) e = ofDec 1 (e - ((k + 1 : Nat) : Int)) := by
   unfold digitsValue
-  have h1 : ofDigits ([] ++ (List.replicate k 48 ++ [49])) = 1 := by
+  have h1 : ofDigits ([] ++ (List.replicate k (48 : UInt8) ++ [49])) = 1 := by
     rw [List.nil_append, ofDigits_append, ofDigits_replicate_zero]
     rfl
-  have h2 : (List.replicate k 48 ++ [49]).length = k + 1 := by
+  have h2 : (List.replicate k (48 : UInt8) ++ [49]).length = k + 1 := by
     simp only [List.length_append, List.length_replicate, List.length_cons, List.length_nil]
   rw [h1, h2]
+
+theorem zeros_one_digits (k : Nat) : ∀ c ∈ (List.replicate k (48 : UInt8) ++ [49]), isDigit c = true := by
+  intro c hc
+  rcases List.mem_append.1 hc with h | h
+  · rw [(List.mem_replicate.1 h).2]; decide
+  · rw [List.mem_singleton.1 h]; decide
+
+theorem rne_1e16 : rne Fmt.f64 (ofDec 1 16) = 0x4341C37937E08000 := by decide +kernel
+theorem rne_1e369 : rne Fmt.f64 (ofDec 1 369) = Fmt.f64.infBits := by decide +kernel
+
+/-- the counter-example with the number of zeros kept symbolic (`k + 17 = 2^31 − 1`) -/
+theorem clamp_harmful_gen (k : Nat) (hk : k + 17 = 2147483647) :
+    (List.replicate k (48 : UInt8) ++ [49]).length < 2147483647 ∧
+    (∀ c ∈ (List.replicate k (48 : UInt8) ++ [49]), isDigit c = true) ∧
+    rne Fmt.f64 (digitsValue [] (List.replicate k (48 : UInt8) ++ [49]) (clampI32 2147484000)) =
+      0x4341C37937E08000 ∧
+    rne Fmt.f64 (digitsValue [] (List.replicate k (48 : UInt8) ++ [49]) 2147484000) = Fmt.f64.infBits := by
+  refine ⟨?_, zeros_one_digits k, ?_, ?_⟩
+  · simp only [List.length_append, List.length_replicate, List.length_cons, List.length_nil]
+    omega
+  · rw [digitsValue_zeros_one]
+    have h1 : clampI32 2147484000 = 2147483647 := by decide
+    have h2 : (2147483647 : Int) - ((k + 1 : Nat) : Int) = 16 := by omega
+    rw [h1, h2]
+    exact rne_1e16
+  · rw [digitsValue_zeros_one]
+    have h2 : (2147484000 : Int) - ((k + 1 : Nat) : Int) = 369 := by omega
+    rw [h2]
+    exact rne_1e369
 
 /-- **Without the margin the clamp is NOT harmless.**  Fraction digits `0…01` with 2147483630 zeros
     (a digit string of 2147483631 < 2^31 − 1 bytes, so the pieces are `Valid`) and the true exponent
     `2147484000`: the true value is `10^369` (rounds to `+∞`), the value with the clamped exponent
-    `i32::MAX` is `10^16` (finite). -/
-theorem clamp_harmful :
-    (List.replicate 2147483630 48 ++ [49] : List UInt8).length < 2147483647 ∧
-    (∀ c ∈ (List.replicate 2147483630 48 ++ [49] : List UInt8), isDigit c = true) ∧
-    rne Fmt.f64 (digitsValue [] (List.replicate 2147483630 48 ++ [49]) (clampI32 2147484000)) =
+    `i32::MAX` is `10^16` (finite, bits `0x4341C37937E08000`). -/
+theorem clamp_harmful : ∃ k : Nat, k = 2147483630 ∧
+    (List.replicate k (48 : UInt8) ++ [49]).length < 2147483647 ∧
+    (∀ c ∈ (List.replicate k (48 : UInt8) ++ [49]), isDigit c = true) ∧
+    rne Fmt.f64 (digitsValue [] (List.replicate k (48 : UInt8) ++ [49]) (clampI32 2147484000)) =
       0x4341C37937E08000 ∧
-    rne Fmt.f64 (digitsValue [] (List.replicate 2147483630 48 ++ [49]) 2147484000) = Fmt.f64.infBits := by
-  refine ⟨?_, ?_, ?_, ?_⟩
-  · simp only [List.length_append, List.length_replicate, List.length_cons, List.length_nil]
-    omega
-  · intro c hc
-    rcases List.mem_append.1 hc with h | h
-    · rw [(List.mem_replicate.1 h).2]; decide
-    · rw [List.mem_singleton.1 h]; decide
-  · rw [digitsValue_zeros_one]
-    have : clampI32 2147484000 = 2147483647 := by decide
-    rw [this]
-    decide +kernel
-  · rw [digitsValue_zeros_one]
-    decide +kernel
+    rne Fmt.f64 (digitsValue [] (List.replicate k (48 : UInt8) ++ [49]) 2147484000) = Fmt.f64.infBits :=
+  ⟨2147483630, rfl, clamp_harmful_gen 2147483630 (by decide)⟩
 
 end MinLex.Front
